@@ -35,6 +35,7 @@ type Clause struct {
 }
 
 type GhostDecl struct {
+	Scope string
 	Name string
 	Typ  string
 	Init *Expr
@@ -108,15 +109,26 @@ func NewContractSet() *ContractSet {
 	return &ContractSet{byName: map[string]*FuncContract{}, types: map[string]*TypeContract{}, pures: map[string]*PureFn{}, ghosts: map[string]*GhostDecl{}}
 }
 
+// curScope is the short package path of the function under verification: contracts for foreign functions and ghost
+// variables declared in a package's contract file apply only while verifying that package.
+var curScope = ""
+
+func (cs *ContractSet) get(key string) *FuncContract {
+	if fc, ok := cs.byName[curScope+"::"+key]; ok {
+		return fc
+	}
+	return cs.byName[key]
+}
+
 func (cs *ContractSet) forFunc(fn *ssa.Function) *FuncContract {
 	if fn == nil {
 		return nil
 	}
-	if fc, ok := cs.byName[funcRef(fn)]; ok {
+	if fc := cs.get(funcRef(fn)); fc != nil {
 		return fc
 	}
 	if o := fn.Origin(); o != nil && o != fn {
-		return cs.byName[funcRef(o)]
+		return cs.get(funcRef(o))
 	}
 	return nil
 }
@@ -198,6 +210,10 @@ func (cs *ContractSet) LoadContractFile(path string, pkgKey string) error {
 			if err != nil {
 				return fail("%v", err)
 			}
+			if pkgKey != "" && !strings.HasPrefix(key, pkgKey+".") {
+				// a contract for a function of another package (external dependency, interface): scoped to this package
+				key = pkgKey + "::" + key
+			}
 			curF = &FuncContract{Key: key, Header: rest, RecvName: recv, File: path, Line: rc.line, Trusted: strings.HasSuffix(path, ".spec")}
 			curT = nil
 			if _, dup := cs.byName[key]; dup {
@@ -228,7 +244,7 @@ func (cs *ContractSet) LoadContractFile(path string, pkgKey string) error {
 			if len(fs) < 2 {
 				return fail("ghost needs name and type")
 			}
-			gd := &GhostDecl{Name: fs[0], Typ: strings.Join(fs[1:], " ")}
+			gd := &GhostDecl{Name: fs[0], Typ: strings.Join(fs[1:], " "), Scope: pkgKey}
 			if len(parts) == 2 {
 				e, err := ParseExpr(parts[1])
 				if err != nil {
@@ -239,7 +255,7 @@ func (cs *ContractSet) LoadContractFile(path string, pkgKey string) error {
 			if curT != nil {
 				curT.Ghost = append(curT.Ghost, *gd)
 			} else {
-				cs.ghosts[gd.Name] = gd
+				cs.ghosts[pkgKey+"::"+gd.Name] = gd
 			}
 		case "requires", "ensures":
 			if curF == nil {
